@@ -166,6 +166,7 @@ package api
 //@ func (*Decoder).Decode assumed "decoder core (generated code / optdec): effects on the destination value are not modelled; only the position is written"
 //@   requires self != nil
 //@   modifies self.i
+//@   ensures result == nil ==> (0 <= self.i && self.i <= len(self.s))
 
 // Decode (C17): errors are sticky; the buffer stays in sync with the stream; a
 // successful Decode consumes input (InputOffset strictly increases).
